@@ -323,6 +323,7 @@ func corpusDart() []*modSpec {
 		mk("dart-enum-values", "", "package models\n\ntype E int\n\nconst (\n\tA E = 1\n\tB E = 2\n\tc E = 3\n\tD E = 2\n)\n\ntype F string\n\nconst (\n\tFa F = \"a\"\n\tFb F = \"b\"\n)\n\ntype Level int\n\nconst (\n\tLow Level = iota\n\tmedium\n\tHigh\n)\n\ntype Kind uint8\n\nconst (\n\tK0 Kind = iota\n\tK1\n\tnbKinds\n)\n\ntype S struct {\n\tE E\n\tF F\n\tL Level\n\tK Kind\n}\n"),
 		mk("dart-map-key-from-package", "", "package models\n\nimport \"example.com/org/models/sub\"\n\ntype S struct {\n\tByColor map[sub.Color]string\n\tById map[sub.ID][]int\n}\n", modFile{"sub/sub.go", "package sub\n\ntype Color int\n\nconst (\n\tRed Color = iota\n\tGreen\n)\n\ntype ID int64\n"}),
 		mk("dart-union-member-names", "", "package models\n\ntype Shape interface{ isShape() }\n\ntype Circle struct{ R int }\ntype square struct{ Side int }\ntype hTTPShape struct{ U string }\ntype N int\n\nfunc (Circle) isShape() {}\nfunc (square) isShape() {}\nfunc (hTTPShape) isShape() {}\nfunc (N) isShape() {}\n\ntype Drawing struct {\n\tMain Shape\n\tAll []Shape\n}\n"),
+		mk("dart-named-basic-from-package", "", "package models\n\nimport \"example.com/org/models/sub\"\n\ntype S struct {\n\tX sub.N\n\tT sub.T\n}\n", modFile{"sub/sub.go", "package sub\n\ntype N int\n\ntype T struct{ A bool }\n"}),
 		mk("dart-union-hidden", "dart-implements-union-not-emitted", "package models\n\ntype A struct{ X int }\nfunc (A) isU() {}\n\ntype S struct {\n\tA A\n\thidden Holder\n}\n", modFile{"other.go", "package models\n\ntype U interface{ isU() }\n\ntype Holder struct{ V U }\n"}),
 	}
 }
